@@ -40,3 +40,76 @@ def isIdentChars (cs : List Char) : Bool :=
 def isIdent (s : String) : Bool := isIdentChars s.toList
 
 end ZeepVerif.RustLex
+
+namespace ZeepVerif.RustLex
+
+/-! ### literals and comments (Rust reference: string literals, line and block comments) -/
+
+def hexVal? (c : Char) : Option Nat :=
+  if '0' ≤ c ∧ c ≤ '9' then some (c.toNat - '0'.toNat)
+  else if 'a' ≤ c ∧ c ≤ 'f' then some (c.toNat - 'a'.toNat + 10)
+  else if 'A' ≤ c ∧ c ≤ 'F' then some (c.toNat - 'A'.toNat + 10)
+  else none
+
+inductive StrMode where
+  | norm                          -- inside the literal
+  | esc                           -- after a backslash
+  | uOpen                         -- after `\u`
+  | hex (value digits : Nat)      -- inside `\u{…}`
+
+/-- lexer of the body of a (non-raw) string literal, positioned after the opening quote: the literal's
+    value and the input after the closing quote, or `none` when the text is not one well-formed literal
+    (unknown escape, bare CR, bad `\u{…}`, no closing quote) -/
+def lexStrBody : StrMode → List Char → List Char → Option (List Char × List Char)
+  | _, _, [] => none
+  | .norm, acc, c :: rest =>
+    if c = '"' then some (acc.reverse, rest)
+    else if c = '\\' then lexStrBody .esc acc rest
+    else if c = '\r' then none
+    else lexStrBody .norm (c :: acc) rest
+  | .esc, acc, c :: rest =>
+    if c = 'n' then lexStrBody .norm ('\n' :: acc) rest
+    else if c = 'r' then lexStrBody .norm ('\r' :: acc) rest
+    else if c = 't' then lexStrBody .norm ('\t' :: acc) rest
+    else if c = '0' then lexStrBody .norm ('\x00' :: acc) rest
+    else if c = '\\' then lexStrBody .norm ('\\' :: acc) rest
+    else if c = '"' then lexStrBody .norm ('"' :: acc) rest
+    else if c = '\'' then lexStrBody .norm ('\'' :: acc) rest
+    else if c = 'u' then lexStrBody .uOpen acc rest
+    else none
+  | .uOpen, acc, c :: rest => if c = '{' then lexStrBody (.hex 0 0) acc rest else none
+  | .hex v n, acc, c :: rest =>
+    if c = '}' then
+      if n = 0 ∨ 6 < n ∨ ¬ v.isValidChar then none else lexStrBody .norm (Char.ofNat v :: acc) rest
+    else match hexVal? c with
+      | some d => lexStrBody (.hex (16 * v + d) (n + 1)) acc rest
+      | none => none
+
+/-- a string literal token at the head of the input: its value and what follows it -/
+def lexStrLit : List Char → Option (List Char × List Char)
+  | '"' :: rest => lexStrBody .norm [] rest
+  | _ => none
+
+/-- a line comment at the head of the input (`//` up to, not including, the newline): its text and what
+    follows; a bare CR inside is an error for doc comments -/
+def lexLineComment : List Char → Option (List Char × List Char)
+  | '/' :: '/' :: rest =>
+    let body := rest.takeWhile (· ≠ '\n')
+    if body.contains '\r' then none else some (body, rest.dropWhile (· ≠ '\n'))
+  | _ => none
+
+/-- inside a block comment at nesting depth `d + 1`: the input after the comment is closed -/
+def lexBlockBody : Nat → List Char → Option (List Char)
+  | d, '*' :: '/' :: rest => match d with
+    | 0 => some rest
+    | d + 1 => lexBlockBody d rest
+  | d, '/' :: '*' :: rest => lexBlockBody (d + 1) rest
+  | d, _ :: rest => lexBlockBody d rest
+  | _, [] => none
+
+/-- a (nesting) block comment at the head of the input: what follows it -/
+def lexBlockComment : List Char → Option (List Char)
+  | '/' :: '*' :: rest => lexBlockBody 0 rest
+  | _ => none
+
+end ZeepVerif.RustLex
